@@ -508,6 +508,59 @@ func (r *Runner) Run(scn *Scenario) ([]Line, error) {
 				ln.Faults = append(ln.Faults, []any{ord, normReason(reason)})
 			}
 			close(h.release)
+		case "batchstart":
+			// one child dies while sibling I is busy in a callback (so the restart of an all/rest-for-one supervisor is stuck in
+			// its stopping phase); StartChild for the dead child arrives in that window; then the sibling is released.
+			// The reference treats the step as the single fault: the management call must be refused or harmless.
+			if !supAlive() || sofo || len(step.Faults) != 1 {
+				continue
+			}
+			{
+				i := int(step.Faults[0][0].(float64))
+				reason := step.Faults[0][1].(string)
+				pi, oki := before[i]
+				pj, okj := before[step.I]
+				if !oki || !okj || i == step.I {
+					continue
+				}
+				entered, release := make(chan struct{}), make(chan struct{})
+				r.Node.Send(pj, gated.Cmd{Fn: func(*gated.Scripted) error { close(entered); <-release; return nil }})
+				select {
+				case <-entered:
+				case <-time.After(time.Second):
+				}
+				faulted[i] = true
+				label := fmt.Sprintf("c%d", i)
+				want := termCount[label] + 1
+				switch reason {
+				case "kill":
+					r.Node.Kill(pi)
+				default:
+					rr := reason
+					r.Node.Send(pi, gated.Cmd{Fn: func(*gated.Scripted) error { return errors.New("R:" + rr) }})
+				}
+				deadline := time.Now().Add(2 * time.Second)
+				for time.Now().Before(deadline) && w.Count(label, "term") < want {
+					time.Sleep(50 * time.Microsecond)
+				}
+				time.Sleep(2 * time.Millisecond)
+				name := gen.Atom(label + suffix)
+				d := doMsg{done: make(chan error, 1), fn: func(s *gsup) error { return s.StartChild(name) }}
+				if err := r.Node.Send(supPid, d); err == nil {
+					select {
+					case e := <-d.done:
+						if e != nil {
+							ln.Res = e.Error()
+						} else {
+							ln.Res = "ok"
+						}
+					case <-time.After(time.Second):
+						ln.Res = "late"
+					}
+				}
+				close(release)
+				ln.Faults = append(ln.Faults, []any{i, normReason(reason)})
+			}
 		case "startchild":
 			if !supAlive() || !sofo {
 				continue
